@@ -124,6 +124,13 @@ def creation_and_conversion(L, db, c, qt, u, fu, x=1.5):
     for ename, empty in (("list", []), ("tuple", ()), ("ndarray", np.array([]))):
         M("empty Array[%s].GetValues(foreign)" % ename, lambda: Array(c, empty, u).GetValues(fu), case)
         M("empty Array[%s].CreateCopy(unit=foreign)" % ename, lambda: Array(c, empty, u).CreateCopy(unit=fu), case)
+    # a factor at exponent zero is still a (category, unit) pair: the unit belongs to the category's type or the request is refused
+    cf = db.GetDefaultCategory(fu)
+    if cf and cf != c:
+        M("ObtainQuantity(dict) with a foreign unit at exponent 0", lambda: ObtainQuantity(OrderedDict([(c, [fu, 0]), (cf, [fu, 1])])), case)
+        M("ObtainQuantity(dict) with a foreign unit at exponent 0, last", lambda: ObtainQuantity(OrderedDict([(cf, [fu, 2]), (c, [fu, 0])])), case)
+        M("ObtainQuantity(list) with a foreign unit at exponent 0", lambda: ObtainQuantity([(fu, 0), (fu, 1)], [c, cf]), case)
+        M("Quantity.CreateDerived with a foreign unit at exponent 0", lambda: Quantity.CreateDerived(OrderedDict([(c, [fu, 0]), (cf, [fu, 1])])), case)
     # a caption on the quantity (what the unit is shown as) changes nothing about what the amount can be re-expressed in
     M("captioned Scalar.GetValue(foreign)", lambda: Scalar(ObtainQuantity(u, c, "a caption"), x).GetValue(fu), case)
     M("captioned Scalar.CreateCopy(unit=foreign)", lambda: Scalar(ObtainQuantity(u, c, "a caption"), x).CreateCopy(unit=fu), case)
